@@ -79,6 +79,10 @@ HelperOK(r) ==
     [] fn = "SliceStable" ->
          /\ NoPanic(r) /\ BagEq(out, a) /\ SortedByKey(out)
          /\ \A i, j \in 1..n : (i < j /\ K(out[i]) = K(out[j])) => out[i] % 10 < out[j] % 10    \* ids are input positions
+    [] fn = "SliceStableLong" ->      \* items are 100 * key + input position
+         /\ NoPanic(r) /\ BagEq(out, a) /\ (\A i \in 1..(n - 1) : out[i] \div 100 <= out[i + 1] \div 100)
+         /\ \A i \in 1..(n - 1) : (out[i] \div 100 = out[i + 1] \div 100) => out[i] % 100 < out[i + 1] % 100
+    [] fn = "SliceSortLong" -> NoPanic(r) /\ BagEq(out, a) /\ (\A i \in 1..(n - 1) : out[i] \div 100 <= out[i + 1] \div 100) /\ r.r = 1
     [] fn = "SliceIsSorted" -> NoPanic(r) /\ r.r = (IF SortedByKey(a) THEN 1 ELSE 0)
     [] fn = "OrderOps" ->
          LET x == K(r.x)  y == K(r.y) IN
